@@ -166,7 +166,8 @@ if c.replay:
 if c.quick:
     mc = [consts(2, 2, 2, 3), consts(1, 1, 3, 4)]
     live = consts(2, 1, 1, 2)
-    graphs = [consts(2, 1, 2, 2), consts(2, 2, 1, 2), consts(3, 1, 1, 2)]
+    # 2r-1k-1t-3ops (425 states, 200 behaviours): the shortest histories with write ; delete ; re-create seen by different replicas
+    graphs = [consts(2, 1, 2, 2), consts(2, 2, 1, 2), consts(3, 1, 1, 2), consts(2, 1, 1, 3)]
     simk, simn, simd = consts(3, 2, 3, 5), 100, 10
 else:
     # measured (16 cores, idle): 3r-1k-3t-3ops 347k states / 2.7M transitions is the big one (~3 min), the others < 1 min each
